@@ -71,7 +71,7 @@ def main(pid, tier, seed):
     n_rich = 12 if tier == 'quick' else 150
     for k in range(n_rich):
         d = os.path.join(work, 'r%d' % k)
-        desc = expand.rich_ruleset(rng, d)
+        desc = expand.tie_group_ruleset(rng, d) if k % 4 == 0 else expand.rich_ruleset(rng, d)
         rule_dirs.append((d, desc))
 
     limit_jobs = []
